@@ -135,10 +135,12 @@ class SimulatedExecutionEnvironment(ExecutionEnvironment):
         symbol_to_fnode = {}
         cnt = 0
         for hf in problem.hidden_fluents:
-            if not hf.is_not():
+            # a fluent that occurs only negated in the constraints is hidden too
+            f = hf.arg(0) if hf.is_not() else hf
+            if f not in fnode_to_symbol:
                 s = Symbol(f"v_{cnt}")
-                fnode_to_symbol[hf] = s
-                symbol_to_fnode[s] = hf
+                fnode_to_symbol[f] = s
+                symbol_to_fnode[s] = f
                 cnt += 1
 
         constraints = []
